@@ -85,12 +85,7 @@ func (g *Gen) runOnce() {
 		g.sc.add([]string{t}, fmt.Sprintf("(declare-const %s %s)", t, g.sortOf(p.Type())))
 		fr.vals[p] = Val{T: t}
 		g.assume(st, g.wf(t, p.Type()))
-		switch p.Type().Underlying().(type) {
-		case *types.Pointer, *types.Map, *types.Chan:
-			g.assume(st, sx("<=", t, "top0"))
-		case *types.Slice:
-			g.assume(st, sx("<=", sx("s_arr", t), "top0"))
-		}
+		g.assume(st, g.allocatedIn(t, p.Type(), "top0", 0))
 		fr.params[name] = CV{T: t, Ty: p.Type()}
 		g.inputs = append(g.inputs, InputVar{Name: name, Term: t, Type: p.Type()})
 	}
